@@ -350,6 +350,7 @@ fn gen_sess(seed: u64, tier: &str) -> Vec<String> {
         for cut in [1usize, 16, 18, 19, 20, 28, 29, 31, open.len() - 1] {
             out.push(sess_case(desc, false, &split_at(&open, &[cut]), false));
             out.push(sess_case(desc, false, &[open[..cut].to_vec()], true));
+            out.push(sess_case(desc, false, &[open[..cut].to_vec()], false));
         }
         // first message is not an OPEN / OPEN twice / UPDATE before KEEPALIVE / wrong AS / bad fixed fields
         for m in [ka.clone(), upd.clone(), notif.clone(), rr.clone()] {
@@ -405,6 +406,59 @@ fn gen_sess(seed: u64, tier: &str) -> Vec<String> {
     out
 }
 
+/// hostile RTR streams for the real client loop: the packet-level RTR streams with an end-of-stream flag, plus one PDU
+/// of every type byte by byte, several PDUs in one write, a trailing partial PDU
+fn gen_rtrs(seed: u64, tier: &str) -> Vec<String> {
+    use verif_pt::sexp::Rng;
+    let mut out = Vec::new();
+    let fmt = |chunks: &[Vec<u8>], eof: bool| {
+        let v: Vec<String> = chunks.iter().map(|c| wiregen::hex(c)).collect();
+        format!("(rtrs (chunks {}) {})", v.join(" "), if eof { "t" } else { "f" })
+    };
+    let pdu = |ver: u8, ty: u8, sess: u16, body: &[u8]| -> Vec<u8> {
+        let mut v = vec![ver, ty];
+        v.extend_from_slice(&sess.to_be_bytes());
+        v.extend_from_slice(&((8 + body.len()) as u32).to_be_bytes());
+        v.extend_from_slice(body);
+        v
+    };
+    let cr = pdu(1, 3, 7, &[]);
+    let p4 = pdu(1, 4, 0, &[1, 24, 24, 0, 192, 0, 2, 0, 0, 0, 0xfd, 0xe9]);
+    let p6 = pdu(1, 6, 0, &[1, 32, 48, 0, 0x20, 1, 0x0d, 0xb8, 0, 0, 0, 0, 0, 0, 0, 0, 0, 0, 0, 0, 0, 0, 0xfd, 0xe9]);
+    let eod = pdu(1, 7, 7, &[0, 0, 0, 5, 0, 0, 14, 16, 0, 0, 2, 88, 0, 0, 28, 32]);
+    let all: Vec<u8> = [cr.clone(), p4.clone(), p6.clone(), eod.clone()].concat();
+    out.push(fmt(&all.iter().map(|b| vec![*b]).collect::<Vec<_>>()[..].chunks(2).map(|c| c.concat()).collect::<Vec<_>>(), false));
+    out.push(fmt(&[all.clone()], false));
+    out.push(fmt(&[all.clone()], true));
+    for cut in [1usize, 4, 7, 8, 9, 12, all.len() - 1] {
+        out.push(fmt(&[all[..cut].to_vec()], true));
+        out.push(fmt(&[all[..cut].to_vec()], false));
+        out.push(fmt(&[all[..cut].to_vec(), all[cut..].to_vec()], false));
+    }
+    for (len, ty) in [(0u32, 3u8), (7, 3), (9, 3), (8, 99), (0xffff_ffff, 4), (65536, 4), (20, 4), (21, 4), (19, 4)] {
+        let mut v = vec![1u8, ty, 0, 0];
+        v.extend_from_slice(&len.to_be_bytes());
+        v.extend_from_slice(&[0u8; 16]);
+        out.push(fmt(&[cr.clone(), v.clone()], false));
+        out.push(fmt(&[v], true));
+    }
+    out.push(fmt(&[], true));
+    out.push(fmt(&[], false));
+    let n = if tier == "thorough" { 3000 } else { 150 };
+    let mut r = Rng(seed.wrapping_mul(0x9E3779B97F4A7C15) ^ 0x5275);
+    for _ in 0..n {
+        let line = wiregen::gen_rtr_case(&mut r);
+        let Some(t) = Term::parse(&line) else { continue };
+        let Some(l) = t.as_list() else { continue };
+        if l.len() != 2 {
+            continue;
+        }
+        let Some(chunks) = chunks_of(&l[1]) else { continue };
+        out.push(fmt(&cap_chunks(chunks, 12), r.chance(1, 3)));
+    }
+    out
+}
+
 fn main() {
     let a: Vec<String> = std::env::args().collect();
     silence_panics();
@@ -421,6 +475,9 @@ fn main() {
                 println!("{}", l);
             }
             for l in gen_sess(seed, &a[4]) {
+                println!("{}", l);
+            }
+            for l in gen_rtrs(seed, &a[4]) {
                 println!("{}", l);
             }
             for l in wiregen::gen_c03(seed, n, &a[4]) {
